@@ -19,7 +19,7 @@ from __future__ import annotations
 import itertools
 
 from .core import AnalysisError
-from .objmodel import ClassModel
+from .objmodel import ClassModel, new_parser_state
 from .ordabs import ModelRaise, Obj
 from .repo import Repo
 
@@ -99,7 +99,7 @@ def check_trivia(repo: Repo, where: str) -> tuple[int, list[tuple[str, str]]]:  
                         r.__dict__["parse"] = oracles[name].parse
                     parser = Obj("Parser", rules=rules)
                     try:
-                        state = cm.new("ParserState", "x" * 12, start, parser)
+                        state = new_parser_state(cm, "x" * 12, start, parser, where)
                         if atomic:
                             state.atomic_depth.__dict__["_value"] = 1
                         pairs: list = []
